@@ -10,3 +10,4 @@ include!(env!("VERIF_SLICE_C15"));
 include!(env!("VERIF_SLICE_C06"));
 include!(env!("VERIF_SLICE_C11"));
 include!(env!("VERIF_SLICE_C07"));
+include!(env!("VERIF_SLICE_C16"));
